@@ -49,6 +49,9 @@ class Item:
     def secretm(self):
         return self.secret
 
+    def __str__(self):
+        return 'I(%s)' % (self.pub,)
+
     def kids(self):
         return self._kids
 
@@ -89,6 +92,8 @@ CH = {
     'in_item_skip': ('<dtml-in seq skip_unauthorized><dtml-var secret>,</dtml-in>', lambda s, c: dict(seq=[Item(secret='x', pub='p0'), Item(secret=s, pub='p1', forbidden=True), Item(secret='z', pub='p2')]), (), ()),
     'in_item_batch': ('<dtml-in seq size=5><dtml-var secret>,</dtml-in>', lambda s, c: dict(seq=[Item(secret='x', pub='p0'), Item(secret=s, pub='p1', forbidden=True)]), (), ()),
     'in_item_nopush': ('<dtml-in seq no_push_item><dtml-var "_[\'sequence-item\'].pub">,</dtml-in>', lambda s, c: dict(seq=[Item(secret='x', pub='p0'), Item(secret='y', pub=s, forbidden=True)]), (), ()),
+    'in_item_nopush_name': ('<dtml-in seq no_push_item><dtml-var sequence-item>,</dtml-in>', lambda s, c: dict(seq=[Item(secret='x', pub='p0'), Item(secret='y', pub=s, forbidden=True)]), (), ()),
+    'in_item_nopush_batch': ('<dtml-in seq no_push_item size=4><dtml-var sequence-item>,</dtml-in>', lambda s, c: dict(seq=[Item(secret='x', pub='p0'), Item(secret='y', pub=s, forbidden=True)]), (), ()),
     'in_attr': ('<dtml-in seq><dtml-var secret>,</dtml-in>', lambda s, c: dict(seq=two(s, c)), ('secret',), ()),
     'fmt_method': ('<dtml-var o fmt=secretm>', lambda s, c: dict(o=Item(secret=s, pub='p')), ('secretm',), ()),
     'tree_branches': ('<dtml-tree root branches=kids><dtml-var pub></dtml-tree>', lambda s, c: dict(root=Item(pub='r', _kids=[Item(pub=s, nid='n1', _kids=[])]), URL='u', RESPONSE=Response(), expand_all=1), ('kids',), ()),
@@ -210,6 +215,35 @@ def ob_restricted_compile(k: int) -> bool:
     return False
 
 
+T_SKIP_IN = cooked('<dtml-in seq skip_unauthorized><dtml-var pub>,</dtml-in>')
+T_SKIP_IN_B = cooked('<dtml-in seq skip_unauthorized size=9><dtml-var pub>,</dtml-in>')
+T_SKIP_TREE = cooked('<dtml-tree root skip_unauthorized>[<dtml-var pub>]</dtml-tree>')
+
+
+def ob_skip_in(f0: bool, f1: bool, f2: bool, f3: bool, f4: bool, batch: bool) -> bool:
+    """dtml-in skip_unauthorized shows exactly the items the guard allows, in order"""
+    fs = [f0, f1, f2, f3, f4]
+    G.log, G.deny_attr, G.deny_item = [], (), ()
+    seq = [Item(pub='p%d' % i, forbidden=fs[i]) for i in range(5)]
+    out = (T_SKIP_IN_B if batch else T_SKIP_IN)(seq=seq)
+    return out == ''.join('p%d,' % i for i in range(5) if not fs[i])
+
+
+def ob_skip_tree(f0: bool, f1: bool, f2: bool, f3: bool, f4: bool) -> bool:
+    """dtml-tree skip_unauthorized shows exactly the branches the guard allows, in order"""
+    fs = [f0, f1, f2, f3, f4]
+    G.log, G.deny_attr, G.deny_item = [], (), ()
+    root = Item(pub='r', nid='r', _kids=[Item(pub='k%d' % i, nid='n%d' % i, _kids=[], forbidden=fs[i]) for i in range(5)])
+    out = T_SKIP_TREE(root=root, URL='u', RESPONSE=Response(), expand_all=1)
+    shown = []
+    pos = out.find('[')
+    while pos >= 0:
+        end = out.find(']', pos)
+        shown.append(out[pos + 1:end])
+        pos = out.find('[', end)
+    return shown == ['k%d' % i for i in range(5) if not fs[i]]
+
+
 def explain(obname, args):
     if obname.startswith('chan_'):
         key = obname[5:]
@@ -228,3 +262,5 @@ OBLIGATIONS.append(Ob('underscore_instancedict', ob_underscore_instdict, ['len(k
                       data="attribute name '_' + k, k any str of len <= 3; guarded bit", selectors='InstanceDict.__getitem__'))
 OBLIGATIONS.append(Ob('underscore_render', ob_underscore_render, ['0 <= k <= 2'], timeout=tier(200, 600), data='guarded / via-with bits', selectors='names _x, __dict__, __class__ rendered against a client whose __getattr__ logs'))
 OBLIGATIONS.append(Ob('restricted_compile', ob_restricted_compile, ['0 <= k < %d' % len(BAD_EXPRS)], timeout=tier(200, 600), data='-', selectors='restricted expressions %r' % BAD_EXPRS))
+OBLIGATIONS.append(Ob('skip_in', ob_skip_in, timeout=tier(200, 600), data='which of 5 items the guard refuses (symbolic bits); batched or not', selectors='dtml-in skip_unauthorized'))
+OBLIGATIONS.append(Ob('skip_tree', ob_skip_tree, timeout=tier(200, 600), data='which of 5 branches the guard refuses (symbolic bits)', selectors='dtml-tree skip_unauthorized expand_all'))
